@@ -61,11 +61,11 @@ func (k *kfEntry) matches(prop, obl string) bool {
 
 type checkOpts struct {
 	repo, prop, tier, only, keep, evdir, root string
-	verbose                                  bool
-	seed                                     int
-	overlay                                  map[string][]byte
-	quiet                                    bool
-	noEvidence                               bool
+	verbose                                   bool
+	seed                                      int
+	overlay                                   map[string][]byte
+	quiet                                     bool
+	noEvidence                                bool
 }
 
 type carveOut struct{ id, fn, pred string }
@@ -375,23 +375,23 @@ func writeEvidence(o *checkOpts, res *checkResult, kfs []*kfEntry, violations in
 	// they are excluded from both counts and listed on their own
 	knownN := len(res.known)
 	cov := map[string]any{
-		"obligations":              proofObls - knownN,
-		"discharged":               proofDone,
-		"checker_cmd":              fmt.Sprintf("bin/govc check -p %s -tier %s (z3-new 5.1.0 / z3 4.8.12 / cvc5 1.0.3 portfolio on SMT-LIB queries generated from go/ssa of %s)", o.prop, o.tier, o.repo),
-		"trusted_base":             trustedBase(),
-		"functions_under_contract": funcs,
-		"obligations_by_kind":      byKind,
-		"by_solver":                bySolver,
-		"solver_time_s":            res.solverTime,
-		"slowest":                  slow,
-		"assumed_contracts_used":   sortedKeys(assumed),
-		"inlined":                  sortedKeys(inlined),
-		"uncontracted_callees":     sortedKeys(uncontr),
-		"known_findings":           knownIDs,
+		"obligations":               proofObls - knownN,
+		"discharged":                proofDone,
+		"checker_cmd":               fmt.Sprintf("bin/govc check -p %s -tier %s (z3-new 5.1.0 / z3 4.8.12 / cvc5 1.0.3 portfolio on SMT-LIB queries generated from go/ssa of %s)", o.prop, o.tier, o.repo),
+		"trusted_base":              trustedBase(),
+		"functions_under_contract":  funcs,
+		"obligations_by_kind":       byKind,
+		"by_solver":                 bySolver,
+		"solver_time_s":             res.solverTime,
+		"slowest":                   slow,
+		"assumed_contracts_used":    sortedKeys(assumed),
+		"inlined":                   sortedKeys(inlined),
+		"uncontracted_callees":      sortedKeys(uncontr),
+		"known_findings":            knownIDs,
 		"known_finding_obligations": knownN,
-		"vacuity_covers":           covers,
-		"samples":                  samples,
-		"integers":                 "mathematical Int with exact two's-complement wrap at every conversion and arithmetic instruction (64-bit int/uint)",
+		"vacuity_covers":            covers,
+		"samples":                   samples,
+		"integers":                  "mathematical Int with exact two's-complement wrap at every conversion and arithmetic instruction (64-bit int/uint)",
 	}
 	var assumptions []string
 	for _, k := range sortedKeys(assumed) {
